@@ -290,12 +290,20 @@ func ruleSeparatorTriviaKept(c *Ctx) {
 		if len(path) != 2 || path[0] != a.peek || path[1].Name() != "LeadingComments" || root != ssa.Value(f.Params[0]) {
 			return
 		}
-		app, ok := isBuiltinCall(st.Val, "append")
-		if !ok || len(app.Call.Args) != 2 {
+		var first, second ssa.Value
+		if app, ok := isBuiltinCall(st.Val, "append"); ok && len(app.Call.Args) == 2 {
+			first, second = app.Call.Args[0], app.Call.Args[1]
+		} else if call, ok := st.Val.(*ssa.Call); ok && extFuncIs(call.Call.StaticCallee(), "slices", "Concat") && len(call.Call.Args) == 1 {
+			// slices.Concat(a, b): the variadic argument is a two-element literal
+			if el, ok := sliceLitElems(call.Call.Args[0]); ok && len(el) == 2 {
+				first, second = el[0], el[1]
+			}
+		}
+		if first == nil {
 			c.bad(fnName(f)+": store to the peek token's comments", st.Pos(), "the peek token's comment list is overwritten with something other than append(<current token's comments>, <its own comments>...): comments are dropped or reordered")
 			return
 		}
-		cu, nx := commentsOf(app.Call.Args[0], a.cur), commentsOf(app.Call.Args[1], a.peek)
+		cu, nx := commentsOf(first, a.cur), commentsOf(second, a.peek)
 		if cu == nil || nx == nil {
 			c.bad(fnName(f)+": store to the peek token's comments", st.Pos(), "the peek token's comment list is overwritten with something other than append(<current token's comments>, <its own comments>...): comments are dropped or reordered")
 			return
